@@ -275,49 +275,29 @@ Proof.
   - simpl. simpl in H1. rewrite H1. f_equal. apply IHs. exact H2.
 Qed.
 
-(* ---- the greedy "(type):" *)
-Lemma lpc_none : forall s, has_parencolon s = false -> last_parencolon s = None.
+(* ---- the non-greedy "(type):" *)
+Lemma has_parencolon_cons : forall c r, has_parencolon (c :: r) = false -> starts_pc (c :: r) = false /\ has_parencolon r = false.
+Proof. intros c r H. simpl in H. apply orb_false_iff in H. exact H. Qed.
+
+Lemma starts_pc_app : forall x a X, starts_pc (x :: a) = false -> starts_pc ((x :: a) ++ ")" :: ":" :: X) = false.
 Proof.
-  induction s as [|c r IH]; intros H; simpl; auto.
-  assert (Hr : has_parencolon r = false).
-  { simpl in H. destruct c as [[] [] [] [] [] [] [] []]; try exact H.
-    destruct r as [|d r']; [reflexivity|].
-    destruct d as [[] [] [] [] [] [] [] []]; try exact H. discriminate. }
-  rewrite IH by exact Hr.
-  destruct r as [|d r']; auto.
-  destruct d as [[] [] [] [] [] [] [] []]; auto.
-  destruct r' as [|e r'']; auto.
-  destruct e as [[] [] [] [] [] [] [] []]; auto.
-  simpl in Hr. discriminate.
+  intros x a X H. destruct a as [|y a'].
+  - simpl. apply andb_false_r.
+  - exact H.
 Qed.
 
-Lemma has_parencolon_colon : forall b, has_parencolon (":" :: b) = has_parencolon b.
-Proof. reflexivity. Qed.
-
-Lemma lpc_app : forall a b, a <> [] -> has_parencolon b = false ->
-  last_parencolon (a ++ ")" :: ":" :: b) = Some (a, b).
+Lemma fpc_app : forall a b, a <> [] -> has_parencolon a = false ->
+  first_parencolon (a ++ ")" :: ":" :: b) = Some (a, b).
 Proof.
-  induction a as [|c a' IH]; intros b Ha Hb; [congruence|].
+  induction a as [|c a' IH]; intros b Ha Hp; [congruence|].
   destruct a' as [|c' a''].
-  - simpl app.
-    assert (E : last_parencolon (")" :: ":" :: b) = None).
-    { change (last_parencolon (")" :: ":" :: b)) with
-        (match last_parencolon (":" :: b) with
-         | Some (a, b0) => Some (")" :: a, b0)
-         | None => match ":" :: b with ")" :: ":" :: b0 => Some ([")"], b0) | _ => None end
-         end).
-      rewrite lpc_none by (rewrite has_parencolon_colon; exact Hb). reflexivity. }
-    change (last_parencolon (c :: ")" :: ":" :: b)) with
-      (match last_parencolon (")" :: ":" :: b) with
-       | Some (a, b0) => Some (c :: a, b0)
-       | None => Some ([c], b)
-       end).
-    rewrite E. reflexivity.
-  - change ((c :: c' :: a'') ++ ")" :: ":" :: b) with (c :: ((c' :: a'') ++ ")" :: ":" :: b)).
-    change (last_parencolon (c :: ((c' :: a'') ++ ")" :: ":" :: b))) with
-      (match last_parencolon ((c' :: a'') ++ ")" :: ":" :: b) with
-       | Some (a, b0) => Some (c :: a, b0)
-       | None => match (c' :: a'') ++ ")" :: ":" :: b with ")" :: ":" :: b0 => Some ([c], b0) | _ => None end
-       end).
+  - reflexivity.
+  - apply has_parencolon_cons in Hp. destruct Hp as [_ Hp].
+    assert (Hs := Hp). apply has_parencolon_cons in Hs. destruct Hs as [Hs _].
+    change ((c :: c' :: a'') ++ ")" :: ":" :: b) with (c :: ((c' :: a'') ++ ")" :: ":" :: b)).
+    change (first_parencolon (c :: ((c' :: a'') ++ ")" :: ":" :: b))) with
+      (if starts_pc ((c' :: a'') ++ ")" :: ":" :: b) then Some ([c], skipn 2 ((c' :: a'') ++ ")" :: ":" :: b))
+       else match first_parencolon ((c' :: a'') ++ ")" :: ":" :: b) with Some (a, b0) => Some (c :: a, b0) | None => None end).
+    rewrite (starts_pc_app c' a'' b Hs).
     rewrite IH; auto. discriminate.
 Qed.
